@@ -906,6 +906,10 @@ func (mc *ModbusClient) readBytes(addr uint16, quantity uint16, regType RegType,
 
 // Writes the given slice of bytes to 16-bit registers starting at addr.
 func (mc *ModbusClient) writeBytes(addr uint16, values []byte, observeEndianness bool) (err error) {
+	// work on a private copy: padding and byte swapping must not touch
+	// the caller's backing array
+	values = append(make([]byte, 0, len(values) + 1), values...)
+
 	// pad odd quantities to make for full registers
 	if len(values) % 2 == 1 {
 		values = append(values, 0x00)
